@@ -153,15 +153,19 @@ fn exec(n: usize, ctor: u8, ops: &[Op], only_c02: bool) -> Option<(String, Strin
                 }
                 Op::Fwd(l, k) => {
                     let seen: std::cell::RefCell<Vec<Vec<u8>>> = std::cell::RefCell::new(Vec::new());
+                    // k >= 100 encodes the predicate `len == 0 || len >= k - 100`: true on the empty aggregate, which is the aggregate of no
+                    // range; it is monotone along the ranges [l, r] whenever the first element is not empty (only then is it used)
+                    let zero_ok = *k >= 100 && !model[*l].is_empty();
+                    let kk = if *k >= 100 { *k - 100 } else { *k };
                     let got = t.lower_bound(*l, |it: &It| {
                         seen.borrow_mut().push(it.s.clone());
-                        it.s.len() >= *k
+                        (zero_ok && it.s.is_empty()) || it.s.len() >= kk
                     });
                     let mut want = None;
                     let mut acc = 0;
                     for r in *l..n {
                         acc += model[r].len();
-                        if acc >= *k {
+                        if acc >= kk {
                             want = Some(r);
                             break;
                         }
@@ -179,15 +183,17 @@ fn exec(n: usize, ctor: u8, ops: &[Op], only_c02: bool) -> Option<(String, Strin
                 }
                 Op::Bwd(r, k) => {
                     let seen: std::cell::RefCell<Vec<Vec<u8>>> = std::cell::RefCell::new(Vec::new());
+                    let zero_ok = *k >= 100 && !model[*r].is_empty();
+                    let kk = if *k >= 100 { *k - 100 } else { *k };
                     let got = t.lower_bound_rev(*r, |it: &It| {
                         seen.borrow_mut().push(it.s.clone());
-                        it.s.len() >= *k
+                        (zero_ok && it.s.is_empty()) || it.s.len() >= kk
                     });
                     let mut want = None;
                     let mut acc = 0;
                     for l in (0..=*r).rev() {
                         acc += model[l].len();
-                        if acc >= *k {
+                        if acc >= kk {
                             want = Some(l);
                             break;
                         }
@@ -345,11 +351,11 @@ pub fn run(seed: u64, replay: Option<String>, c02: bool) -> Outcome {
                 0 => Op::Set(l, vec![rng.below(11) as u8; rng.below(3) as usize]),
                 1 | 2 => Op::Mod(l, r, 1 + rng.below(10) as u8, rng.below(11) as u8),
                 3 => Op::Ask(l, r),
-                4 | 5 => Op::Fwd(l, rng.below(8) as usize),
-                _ => Op::Bwd(r, rng.below(8) as usize),
+                4 | 5 => Op::Fwd(l, rng.below(8) as usize + if rng.below(4) == 0 { 100 } else { 0 }),
+                _ => Op::Bwd(r, rng.below(8) as usize + if rng.below(4) == 0 { 100 } else { 0 }),
             });
             if c02 && rng.below(2) == 0 {
-                ops.push(Op::Bwd(r, rng.below(8) as usize));
+                ops.push(Op::Bwd(r, rng.below(8) as usize + if rng.below(4) == 0 { 100 } else { 0 }));
             }
         }
         cases += 1;
